@@ -298,6 +298,21 @@ func migrateScenario(name, text string, dc map[int]string, second bool) *sess.Sc
 
 const addrC = "10.0.0.3:443"
 
+func withOtherClient(sc *sess.Scenario) *sess.Scenario {
+	own := sc.AfterConnect
+	sc.AfterConnect = func(w *sess.World) {
+		other, err := mtproto.NewMTProto(mtproto.Config{SessionStorage: &sess.MemStore{}, ServerHost: "x:1"})
+		if err != nil {
+			panic(err)
+		}
+		theirs := map[int]string{2: "10.9.9.9:443", 9: "10.9.9.9:443"}
+		other.SetDCList(theirs)
+		own(w)
+		other.SetDCList(theirs)
+	}
+	return sc
+}
+
 type chainExpect struct {
 	dials []string
 	ops   []struct {
@@ -366,6 +381,10 @@ func scenarios() []*sess.Scenario {
 		migrateScenario("M-unconfigured-neg", "PHONE_MIGRATE_-1", cfg, false),
 		migrateScenario("M-param-absent", "PHONE_MIGRATE_", cfg, false),
 		migrateScenario("M-param-nonnumeric", "PHONE_MIGRATE_x", cfg, false),
+		// another client of the same process has its own table of data centres: what it configures (before and
+		// after this client configures its own) is not this client's business
+		withOtherClient(migrateScenario("M-configured-while-another-client-has-another-table", "PHONE_MIGRATE_2", cfg, false)),
+		withOtherClient(migrateScenario("M-unconfigured-9-while-another-client-configures-9", "PHONE_MIGRATE_9", cfg, false)),
 	}
 }
 
